@@ -249,7 +249,45 @@ impl<'a> Gen<'a> {
         self.rng.below(1000) < self.p.unsafe_permille
     }
 
+    fn arrival(&mut self, pre: &str, d: i128) -> Step {
+        let nkinds = if self.p.std_only { 6 } else { 2 };
+        let f = self.rng.below(nkinds) as i128;
+        let st = Step::new(&format!("{pre}.arrive")).i("d", d).i("f", f);
+        match f {
+            0 => {
+                // RNG stream with zero top words (high zero digits the generator must strip)
+                let bits = *self.rng.pick(&[0u64, 1, 31, 32, 33, 63, 64, 65, 127, 128, 200]);
+                let len = ((bits + 31) / 32) as usize + 1;
+                let mut w: Vec<u32> = (0..len).map(|_| self.rng.word32()).collect();
+                if self.rng.chance(1, 2) {
+                    let n = w.len();
+                    for x in w.iter_mut().skip(n.saturating_sub(3)) {
+                        *x = 0;
+                    }
+                }
+                w.push(*self.rng.pick(&[0u32, 0x8000_0000]));
+                st.i("k", bits as i128).l32("v", &w)
+            }
+            1 => {
+                // serde tokens with trailing zeros and (BigInt) sign/magnitude mismatch
+                let v = self.val();
+                let v = self.padded(v);
+                let v = if self.rng.chance(1, 6) { vec![0; v.len()] } else { v };
+                st.i("sg", *self.rng.pick(&[-1i128, 0, 1])).l32("v", &v)
+            }
+            _ => {
+                // Unstructured bytes that may run dry / be all zero; quickcheck seed and size
+                let n = self.rng.below(70) as usize;
+                let bytes: Vec<u64> = if self.rng.chance(1, 3) { vec![0; n] } else { (0..n).map(|_| (self.rng.word32() & 0xff) as u64).collect() };
+                st.i("k", self.rng.below(1000) as i128).l("v", bytes)
+            }
+        }
+    }
+
     pub fn construct_u(&mut self, d: i128) -> Step {
+        if self.rng.chance(1, 8) {
+            return self.arrival("u", d);
+        }
         let v = self.val();
         match self.rng.below(12) {
             0 => {
@@ -327,6 +365,9 @@ impl<'a> Gen<'a> {
     }
 
     pub fn construct_i(&mut self, d: i128) -> Step {
+        if self.rng.chance(1, 8) {
+            return self.arrival("i", d);
+        }
         let v = self.val();
         let sg = *self.rng.pick(&[-1i128, -1, 0, 1, 1]);
         match self.rng.below(13) {
